@@ -42,6 +42,11 @@ CHECKS = {
         text="The literal TLA+ transcription of the differ is model-checked under idealised entropy (every old byte a distinct symbol, every introduced byte fresh) over ALL edit scripts of up to 2 edits (overwrite/insert/delete, every offset and length) on multi-block files: fresh <= introduced + (2k+2)*BS, fresh + reused = |new|, identical => no data. The real WritePatch runs on builds of high-entropy content related by logged edit scripts, renames and duplications; the patch is decoded independently and TLC checks the per-file bound, zero fresh bytes for content-equal files, and that the differ's counters equal the sums over the patch and add up to the new build's size.",
         note="bound claimed for high-entropy content only; the model-to-code link is the zero-drift result of ./check C11.",
         technique="TLA+ model checking (TLC) over all small edit scripts + trace validation of real patches against the TLA+ accounting property"),
+    "C17": dict(
+        level="model_checking", ref="DESIGN.md §4 C17",
+        text="TLA+ model of the patcher's stream state machine with whitelist skipping (end-marker recognition modelled as the code does it: protobuf field 1 of whatever message is read) model-checked over all patches of 3 files built from 6 series shapes (incl. bsdiff series targeting index 2049) x every whitelist. Real patcher runs with a recording bowl and a recording target pool on plain and optimized patches of generated build pairs (incl. an old build with > 2049 files) for every subset (<= 5 files) or seeded subsets; TLC checks no error, touched = |W|, bowl asked exactly for W, old files read only as the whitelisted series allow, whitelisted outputs identical to the new build.",
+        note="SHA-256 digests stand for byte equality; non-whitelisted paths are not inspected.",
+        technique="TLA+ model checking (TLC) + trace validation of real whitelisted applications against the TLA+ property"),
 }
 
 NOT_YET = "check not built yet in this round (planned: DESIGN.md §4); not a claim that the technique cannot apply"
